@@ -234,6 +234,30 @@ NiShape* buildShape(NifFile& nif, const json& s, Ctx& ctx) {
 			}
 			nif.UpdateSkinPartitions(shape);
 		}
+		// SE files written by the game tools often carry the weights only per vertex (NiSkinData without weights), and the
+		// four influence slots of a vertex need not be filled from the front
+		if (bs && ver.IsSSE() && jbool(s, "sparse_slots", false)) {
+			auto bsShape = dynamic_cast<BSTriShape*>(shape);
+			for (auto& vd : bsShape->vertData) {
+				// move the second influence (if any) from slot 1 to slot 2 or 3
+				if (vd.weights[1] > 0.0f && vd.weights[2] == 0.0f && vd.weights[3] == 0.0f) {
+					int to = 2 + int(r.below(2));
+					vd.weights[to] = vd.weights[1];
+					vd.weightBones[to] = vd.weightBones[1];
+					vd.weights[1] = 0.0f;
+					vd.weightBones[1] = 0;
+				}
+			}
+			ctx.probe("built_sparse_weight_slots");
+		}
+		if (bs && ver.IsSSE() && jbool(s, "no_skindata_weights", false)) {
+			if (auto si = hdr.GetBlock<NiSkinInstance>(shape->SkinInstanceRef()))
+				if (auto sd = hdr.GetBlock(si->dataRef)) {
+					for (auto& b : sd->bones) { b.vertexWeights.clear(); b.numVertices = 0; }
+					sd->hasVertWeights = 0;
+					ctx.probe("built_without_skindata_weights");
+				}
+		}
 		ctx.probe("built_skinned");
 	}
 
